@@ -67,6 +67,7 @@ func cmdCheck(args []string) int {
 	tier := fs.String("tier", "", "quick or thorough")
 	verif := fs.String("verif", "/verif", "verif directory")
 	verbose := fs.Bool("v", false, "verbose")
+	noReplay := fs.Bool("no-replay", os.Getenv("DVC_NO_REPLAY") != "", "do not try to replay counterexamples on the real code")
 	fs.Parse(args)
 	if fs.NArg() < 1 {
 		fmt.Fprintln(os.Stderr, "usage: dvc check <property> [--tier quick|thorough]")
@@ -79,7 +80,9 @@ func cmdCheck(args []string) int {
 	tier2 := fs2.String("tier", *tier, "")
 	verbose2 := fs2.Bool("v", *verbose, "")
 	repo2 := fs2.String("repo", *repo, "")
+	noReplay2 := fs2.Bool("no-replay", *noReplay, "")
 	fs2.Parse(rest)
+	*noReplay = *noReplay2
 	*tier, *verbose, *repo = *tier2, *verbose2, *repo2
 	if *tier == "" {
 		*tier = os.Getenv("VERIF_TIER")
@@ -293,7 +296,7 @@ func cmdCheck(args []string) int {
 	}
 
 	// report
-	replayDir := filepath.Join(*verif, "work", "replay", prop)
+	replayDir := filepath.Join(replayBase(*verif), prop)
 	os.MkdirAll(replayDir, 0o755)
 	exit := 0
 	var knownLines, violLines []string
@@ -312,8 +315,8 @@ func cmdCheck(args []string) int {
 			"solver_output": r.Output, "model": vc.SummarizeModel(r.Model, 200),
 		}
 		confirmed := false
-		if r.Verdict == "failed" {
-			confirmed = tryReplay(*verif, *repo, prop, r, rp)
+		if (r.Verdict == "failed" || r.Verdict == "undecided") && !*noReplay {
+			confirmed = replayModel(*verif, *repo, prop, r, rp, env, results)
 		}
 		b, _ := json.MarshalIndent(rp, "", " ")
 		os.WriteFile(path, b, 0o644)
@@ -478,9 +481,6 @@ func sanitize(s string) string {
 func round3(f float64) float64 { return float64(int(f*1000+0.5)) / 1000 }
 
 // tryReplay attempts to confirm a counterexample on the real code through a replay driver.
-func tryReplay(verif, repo, prop string, r *vc.ObResult, rp map[string]interface{}) bool {
-	return replayModel(verif, repo, prop, r, rp)
-}
 
 
 // runOverlayTest injects the test files of dir into package rel of the repository with -overlay and runs one test.
